@@ -1,1 +1,3 @@
+import Props.C01
+import Props.C08
 import Props.C13
